@@ -17,7 +17,6 @@ package message
 import (
 	"bytes"
 	"fmt"
-	"sync/atomic"
 )
 
 // SubscribeMessage is a SUBSCRIBE packet, sent from the Client to the Server to create one or more
@@ -233,7 +232,7 @@ func (m *SubscribeMessage) Encode(dst []byte) (int, error) {
 	}
 
 	if m.PacketID() == 0 {
-		m.SetPacketID(uint16(atomic.AddUint64(&gPacketID, 1) & 0xffff))
+		m.SetPacketID(nextPacketID())
 		//this.packetId = uint16(atomic.AddUint64(&gPacketId, 1) & 0xffff)
 	}
 
